@@ -18,6 +18,7 @@ import (
 
 type histKinds struct {
 	setters, resolve, clone, sp, spRead bool
+	extra                               bool // setters the library gained after the harness was written (obs.ExtraSetters)
 }
 
 func sOp(name string, args ...string) core.Op {
@@ -33,6 +34,13 @@ func genOp(r *rand.Rand, k histKinds) core.Op {
 		switch r.IntN(10) {
 		case 0, 1, 2, 3, 4, 5:
 			if k.setters {
+				if k.extra && len(obs.ExtraSetters) > 0 && r.IntN(4) == 0 {
+					v := gen.StartURL(r)
+					if r.IntN(2) == 0 {
+						v = gen.SetterValue(r, gen.Pick(r, gen.Setters))
+					}
+					return sOp(gen.Pick(r, obs.ExtraSetters), v)
+				}
 				s := gen.Pick(r, gen.Setters)
 				if r.IntN(8) == 0 {
 					// the component's CURRENT value, in another spelling (resolved when the history runs)
